@@ -17,6 +17,10 @@ CHECKS = {
                 technique="stateless exploration of all thread schedules of the real writer/budget code under a cooperative scheduler, iterative deviation bounding (delay bound and CHESS preemption bound)",
                 text="The real _write_external_tensors/_ExternalDataWriter/_ByteBudget code runs on real threads under a baton scheduler that owns every lock/condition/future/executor operation (module globals threading/concurrent rebound to shims) plus harness points inside tensor materialisation and callbacks. Every schedule within the deviation bound is executed to completion per configuration (oversized tensors, shared tensor object, sharding with serial and parallel inner writers, failing tensor/callback) and checked for termination, byte-identical files, exactly-once non-overlapping callbacks, one-at-a-time evaluation of a shared tensor, the memory bound, and clean failure propagation.",
                 note="Atomicity between scheduling points is assumed (GIL granularity); the executor shim models stock ThreadPoolExecutor semantics. Bounds per configuration are listed in the evidence."),
+    "C11": dict(level="model_checking", engine="E1-seq", design="4/C11",
+                technique="exhaustive enumeration of all interleavings of iterator steps and edits up to a depth on the real linked list / graph iterators, trace monitors from the statement + plain-list reference for the sequence protocol",
+                text="Every event sequence (iterator steps of up to two simultaneous forward/reverse/recursive iterators interleaved with append/extend/insert_before/insert_after/remove/move/sort on current, earlier, later, removed and foreign nodes) up to the depth bound, after 0-3 warm-up steps, is executed on the real classes; after every event len/index/negative index/membership/iteration/reversed are compared with a plain Python list, and at the end every iterator is drained and judged by monitors taken literally from the statement (termination, membership at yield time, untouched nodes exactly once in order, inserted-after/before rule, resume-after-removal rule, iterator independence).",
+                note="Position-dependent rules are judged only where the statement is unambiguous (documented in the evidence assumptions). Depth 3 (quick) / 4 (thorough) beyond the warm-up."),
 }
 
 NOT_YET = {}
@@ -56,6 +60,8 @@ def main():
         "engines": [
             {"name": "E1-bfs", "path": "mc/explore.py", "serves_properties": ["C01", "C06"],
              "kind_free_text": "explicit-state BFS over the real transition function; states are histories replayed on fresh real objects; dedup on canonical public snapshot"},
+            {"name": "E1-seq", "path": "mc/props/c11.py", "serves_properties": ["C11"],
+             "kind_free_text": "stateless enumeration of all event sequences up to a depth with trace monitors"},
             {"name": "E4-sched", "path": "mc/sched.py", "serves_properties": ["C09"],
              "kind_free_text": "cooperative baton scheduler for real threads + stateless DFS with delay/preemption bounding"},
         ],
